@@ -535,6 +535,43 @@ def token_stream(text):
     return {"lines": lines, "toks": toks}
 
 
+def contract_status(text):
+    """does the real tokenizer's stream for `text` satisfy the contract `WF` of theorem lines_verbatim?
+    'wf' (then the conclusion is checked too by the caller), 'multi' (a multi-line token: outside the theorem),
+    'untokenizable', or 'violated: why' (the external engine does not behave as the hypothesis says)."""
+    try:
+        toks = list(_tokenize.tokenize(_io.BytesIO(text.encode("utf-8")).readline))
+    except Exception:  # noqa
+        return "untokenizable"
+    from clikit.ui.components.exception_trace import Highlighter
+    row, col = 1, 0
+    phys = {}
+    for t in toks:
+        if t.start[0] == 0:
+            continue
+        if t.type == _tokenize.ENDMARKER:
+            break
+        if t.start[0] < t.end[0]:
+            return "multi"
+        r = t.start[0]
+        if phys.setdefault(r, t.line) != t.line:
+            return "violated: two different `line` values on row %d" % r
+        if not (t.start[1] <= t.end[1] and t.line[t.start[1]:t.end[1]] == t.string):
+            return "violated: string != line[start:end] at %r" % (t,)
+        if not ((r == row and col <= t.start[1]) or r == row + 1):
+            return "violated: order/consecutive rows at %r (cursor %d,%d)" % (t, row, col)
+        if "\n" in t.line[:t.start[1]]:
+            return "violated: newline before the token at %r" % (t,)
+        skipped = (t.type == _tokenize.NEWLINE and t.string not in Highlighter.KEYWORDS
+                   and t.string not in Highlighter.BUILTINS and t.string != "self")
+        if skipped:
+            col = 0 if r > row else col
+        else:
+            col = t.end[1]
+        row = r
+    return "wf"
+
+
 _ENV = None
 
 
@@ -621,7 +658,8 @@ def run_impl(case):
     if case["kind"] == "highlight":
         src = norm_newlines(_highlight_source(case))
         return {"split": _highlight_obs(src, case["utf8"]),
-                "snippet": _snippet_obs(src, case["line"], case["before"], case["after"], case["utf8"])}
+                "snippet": _snippet_obs(src, case["line"], case["before"], case["after"], case["utf8"]),
+                "contract": contract_status(src)}
     from clikit.ui.components.exception_trace import ExceptionTrace
     with Program(case) as p:
         exc = p.raise_it()
@@ -776,7 +814,10 @@ def model_obs(case, answers):
     if "err" in render:
         raised, out = render["err"], None
     else:
-        raised, out = None, _apply_formatter(case, render["ok"])
+        try:
+            raised, out = None, _apply_formatter(case, render["ok"])
+        except Exception as e:  # noqa - the formatter (external) rejects the markup: the real render raises the same
+            raised, out = type(e).__name__, None
     kept = None
     if not case.get("simple") and case["verbosity"] >= 1 and frames["count"] - 1 != 0 and fx["frames"]:
         kept = frames["kept"]
@@ -786,7 +827,7 @@ def model_obs(case, answers):
 
 def impl_view(case, obs):
     if case["kind"] == "highlight":
-        return obs
+        return {"split": obs["split"], "snippet": obs["snippet"]}
     v = {"raised": obs["raised"], "out": obs["out"] if obs["raised"] is None else None, "kept": obs["kept"],
          "splits": obs["splits"], "snippet": obs["snippet"]}
     return v
@@ -965,7 +1006,12 @@ def _highlight_violations(case, obs):
         except Exception:  # noqa - the source itself does not tokenize: outside the quantifier
             return viol
         return [{"clause": "raises", "text": "highlighting raised %s" % obs["split"]["err"]}]
-    shown = _plain_text_of(obs["split"]["ok"])
+    try:
+        shown = _plain_text_of(obs["split"]["ok"])
+        if "ok" in obs["snippet"]:
+            _plain_text_of(obs["snippet"]["ok"])
+    except Exception as e:  # noqa
+        return [{"clause": "raises", "text": "the formatter rejects a highlighted line (%s): writing it would raise" % type(e).__name__}]
     src_lines = src.split("\n")
     rows, _c = token_rows(src)
     if rows is not None:
@@ -1038,7 +1084,8 @@ def nontrivial_key(case, obs):
 
 def bucket(case, obs):
     if case["kind"] == "highlight":
-        return "highlight:%s" % ("repo-file" if "path" in case else "generated")
+        return "highlight:%s:tokenizer-contract-%s" % ("repo-file" if "path" in case else "generated",
+                                                       obs.get("contract", "?").split(":")[0])
     p = case["prog"]
     return "trace:%s:%s:v%d:%s%s" % (p["mode"], case.get("stream", "main"), case["verbosity"],
                                      "ansi" if case["ansi"] else "plain", ":simple" if case.get("simple") else "")
